@@ -1,7 +1,7 @@
 """C04 — optimize() is total on valid models; result valid, same interface."""
 import re
 
-MODULES = ["contracts.c03_folding", "contracts.c04_process", "contracts.c07_rewrite", "contracts.c05_rules", "contracts.c05_batchnorm", "contracts.c05_basic", "contracts.c04_pipeline"]
+MODULES = ["contracts.c03_folding", "contracts.c04_process", "contracts.c07_rewrite", "contracts.c05_rules", "contracts.c05_batchnorm", "contracts.c05_basic", "contracts.c04_pipeline", "contracts.c09_expand:any rank"]
 HEAD = "import sys\nsys.path.insert(0, '/verif')\nfrom replay_lib.opt_native import main\n"
 
 
